@@ -45,6 +45,7 @@ mod common;
 mod cgen;
 mod model;
 mod props;
+mod wire;
 
 use common::{Run, Tier};
 
@@ -55,6 +56,7 @@ fn registry(id: &str) -> Option<(&'static str, RunFn, ReplayFn)> {
     Some(match id {
         "C15" => ("C15", props::c15::run, props::c15::replay),
         "C02" => ("C02", props::c02::run, props::c02::replay),
+        "C04" => ("C04", props::c04::run, props::c04::replay),
         "C06" => ("C06", props::c06::run, props::c06::replay),
         "C07" => ("C07", props::c07::run, props::c07::replay),
         "C08" => ("C08", props::c08::run, props::c08::replay),
